@@ -96,8 +96,13 @@ def file_name_task(case):
     return {'kind': 'file-names', 'point': case['id'], 'bad': bad, 'count': n}
 
 
-def tu_text(includes):
-    return ''.join(f'#include "{h}"\n' for h in includes) + 'int main() { return 0; }\n'
+# EMBEDDING: what an ordinary translation unit of the user may hold BEFORE it includes a generated header
+USING_STD = ('#include <algorithm>\n#include <cctype>\n#include <cwctype>\n#include <functional>\n#include <locale>\n#include <map>\n'
+             '#include <memory>\n#include <mutex>\n#include <optional>\n#include <string>\n#include <vector>\nusing namespace std;\n')
+
+
+def tu_text(includes, preamble=''):
+    return preamble + ''.join(f'#include "{h}"\n' for h in includes) + 'int main() { return 0; }\n'
 
 
 def other_prefix_build(case):
@@ -176,15 +181,16 @@ def plan(case, thorough, full_graph):
             del vsrc['driver.cc']
             tasks.append({'kind': 'size-compile', 'point': pid, 'label': label, 'src': vsrc, 'mains': [vnames[1]]})
 
-    def syntax(kind, includes, compiler=None):
+    def syntax(kind, includes, compiler=None, preamble=''):
         tasks.append({'kind': kind, 'point': pid, 'includes': includes, 'src': src, 'compiler': compiler,
-                      'shell_hh': shell_hh})
+                      'shell_hh': shell_hh, 'preamble': preamble})
 
     compilers = [None, 'clang++'] if thorough else [None]
     for comp in compilers:
         for h in headers:
             syntax('standalone', [h], comp)
             syntax('double-inclusion', [h, h], comp)
+            syntax('standalone-after-using-namespace-std', [h], comp, USING_STD)
         for h1, h2 in itertools.permutations(headers, 2):
             syntax('pair', [h1, h2], comp)
         syntax('full-order', sorted(headers), comp)
@@ -259,14 +265,14 @@ def run_task(task):
         return part
     if 'includes' in task:
         src = dict(task['src'])
-        src['tu.cc'] = tu_text(task['includes'])
+        src['tu.cc'] = tu_text(task['includes'], task.get('preamble', ''))
         res = lab.run_sources(src, main='tu.cc', syntax_only=True, compiler=task['compiler'])
         kinds = [header_kind(h, task['shell_hh']) for h in task['includes']]
         part.outcome(kind)
         part.nontrivial += 1
         if not res['compiled']:
             first = (res['compile_error'].splitlines() or ['?'])[0].split('error:')[-1].strip()[:70]
-            label = '+'.join(kinds) if kind in ('standalone', 'double-inclusion', 'pair') else f'{len(kinds)} headers'
+            label = '+'.join(kinds) if kind in ('standalone', 'double-inclusion', 'pair', 'standalone-after-using-namespace-std') else f'{len(kinds)} headers'
             part.violation(f'{kind}:{label}:{first}',
                            f'point {task["point"]} ({task["compiler"] or "g++"}): including {task["includes"]}: '
                            f'{res["compile_error"][:500]}', rcase)
